@@ -69,6 +69,20 @@ Theorem C18_mem_no_spurious_calls : forall ps f hashr h st outs a,
 Proof. exact mem_no_spurious_calls. Qed.
 Print Assumptions C18_mem_no_spurious_calls.
 
+(* The memoised closure never panics and never gets stuck by itself (f's panics are f's): a run
+   over a typed history ends normally unless the generator refused Equal/Hash of the key type. *)
+Theorem C18_mem_progress : forall ps f hashr h,
+  hash_respects ps hashr ->
+  (forall b, args_typed ps b = true -> ok_or_unsup (hashr (key_val b))) -> typed_history ps h ->
+  ok_or_unsup (mem_run_with hashr ps f h).
+Proof. exact mem_progress. Qed.
+Print Assumptions C18_mem_progress.
+
+Theorem C18_mem_never_panics : forall ps f h,
+  typed_history ps h -> ok_or_unsup (mem_run ps f h).
+Proof. exact mem_never_panics. Qed.
+Print Assumptions C18_mem_never_panics.
+
 (* The emitted code's hash is derived Hash, which respects Equal (C04) ... *)
 Theorem C18_derived_hash_respects : forall ps, hash_respects ps (fun k => hashm [] (key_ty ps) k).
 Proof. exact derived_hash_respects. Qed.
